@@ -493,6 +493,24 @@ def r32(ctx, rep):
         if isinstance(node, ast.AugAssign) and isinstance(node.op, ast.BitAnd) and isinstance(node.target, ast.Name):
             arr = roles.get(node.value.left.id, node.value.left.id) if isinstance(node.value, ast.Compare) and isinstance(node.value.left, ast.Name) else "?"
             refinements.setdefault(node.target.id, []).append((node.lineno, arr))
+    # a refinement may be skipped only when it cannot matter (a single candidate left)
+    for node in ast.walk(be.node):
+        if isinstance(node, ast.AugAssign) and isinstance(node.op, ast.BitAnd) and isinstance(node.target, ast.Name):
+            for kind, test, _n in enclosing_context(node, be.node):
+                if kind != "if-true" or not mentions(test, node.target.id):
+                    continue
+                p = _cmp_parts(test)
+                okg = False
+                if p and isinstance(p[0], ast.Call) and (dotted(p[0].func) or "").split(".")[-1] in ("count_nonzero", "sum") and const_value(p[2]) is not None:
+                    c = const_value(p[2])
+                    okg = (p[1], c) in ((">", 1), (">=", 2), (">", 0), (">=", 1), ("!=", 1), ("!=", 0))
+                desc = f"best_eval:{node.lineno} tie-break refinement of {node.target.id} under `{norm(test)[:50]}`"
+                if okg:
+                    rep.ok("R3.2", desc)
+                elif p is not None:
+                    rep.bad("R3.2", desc)
+                    rep.finding("R3.2", be, norm(test)[:100], node.lineno,
+                                f"the tie-break refinement of `{node.target.id}` is guarded by `{norm(test)}`, which skips it when several candidates tie: the most recent of the tied points is returned instead of the one with the least violation / objective")
     for mask, seq in refinements.items():
         seq.sort()
         arrs = [a for _, a in seq]
